@@ -70,6 +70,13 @@ theorem roots_spec {m : AMap α} (hac : Acyclic m) :
   rw [Nat.add_comm] at e2
   rw [← e1, e2]
 
+example : roots [("a", "b"), ("b", "Y"), ("GDP", "Y")] = [("a", "Y"), ("b", "Y"), ("GDP", "Y")] := by decide
+example : Acyclic [("a", "b"), ("b", "Y"), ("GDP", "Y")] := by
+  intro k hk
+  refine ⟨2, ?_⟩
+  simp [keys] at hk
+  rcases hk with rfl | rfl | rfl <;> decide
+
 /-! ## 1. The shortening loop -/
 
 /-- If every chain has left the aliases after `N` steps, a loop with at least `N` passes `break`s after at
